@@ -1065,6 +1065,22 @@ fn emit_item(ctx: &mut Ctx, file: &str, name: &str, opts: &BTreeMap<String, Stri
             folded = Some((c.expr.to_token_stream().to_string(), v));
             let lit = syn::LitInt::new(&v.to_string(), proc_macro2::Span::call_site());
             *c.expr = syn::parse_quote!(Address { id: #lit, proto: 0 });
+        } else if let syn::Expr::Struct(st) = &mut *c.expr {
+            // struct-literal constant: fold every integer field expression
+            let orig = st.to_token_stream().to_string();
+            let mut any = false;
+            for fv in st.fields.iter_mut() {
+                if !matches!(&fv.expr, syn::Expr::Lit(_)) {
+                    if let Some(v) = const_eval(&fv.expr, &ctx.consts) {
+                        let lit = syn::LitInt::new(&v.abs().to_string(), proc_macro2::Span::call_site());
+                        fv.expr = if v >= 0 { syn::parse_quote!(#lit) } else { syn::parse_quote!(-#lit) };
+                        any = true;
+                    }
+                }
+            }
+            if any {
+                folded = Some((orig, 0));
+            }
         } else if let Some(v) = const_eval(&c.expr, &ctx.consts) {
             ctx.consts.insert(c.ident.to_string(), v);
             if !is_lit {
